@@ -208,6 +208,13 @@ def flow_dataflow(ctx, repo, c, sv, ld):
     in_loop = [e for e in wts if any(lp["node"].lineno <= e.node.lineno <= lp["node"].end_lineno for lp in ev.loops)]
     ctx.decide(len(in_loop) == 1 and not in_loop[0].conds, "C13.flow", f"{c.ident}", loc_of(sv), "save writes one dataset per weight array of the wrapped flow",
                "save does not write every weight array of self._flow", disc="save|weights")
+    # when the arrays are selected with a filter (equinox.partition), it must keep *every* array: integer leaves
+    # (permutation indices that depend on the flow's key) are part of the map
+    parts_ = [e for e in ev.events if e.func is sv and e.callee.endswith("partition") and len(e.args) >= 2]
+    for i_, e in enumerate(parts_):
+        ctx.decide(e.args[1] == ("ref", "equinox.is_array"), "C13.flow", f"{c.ident}", loc_of(sv, e.node), "the saved leaves are all arrays of the flow (filter is_array)",
+                   f"the flow's arrays are selected for saving with {T.show(e.args[1])[:60]}: arrays it leaves out (e.g. integer permutations between layers) are not saved "
+                   "and come from a freshly built template after load", disc=f"save|filter{i_}")
     ev2 = Evaluator(repo, max_depth=0)
     ret = T.strip_raise(ev2.run(ld, c))
     mine = [e for e in ev2.events if e.func is ld]
@@ -326,11 +333,19 @@ def run(ctx):
                 sep_w = consts[0]
     lf = repo.func(f"{U}:load_from_h5_file")
     sep_r = None
+    bounded_split = None
     for n in ast.walk(lf.node):
-        if isinstance(n, ast.Call) and isinstance(n.func, ast.Attribute) and n.func.attr == "split" and n.args and isinstance(n.args[0], ast.Constant):
+        if isinstance(n, ast.Call) and isinstance(n.func, ast.Attribute) and n.func.attr in ("split", "rsplit", "partition", "rpartition") and n.args and isinstance(n.args[0], ast.Constant):
             sep_r = n.args[0].value
+            # the writer flattens to any depth: the reader must split on every separator
+            if n.func.attr != "split" or len(n.args) > 1 or any(k.arg == "maxsplit" for k in n.keywords):
+                bounded_split = n
     ctx.decide(sep_w is not None and sep_w == sep_r, "C13.flatten", f"{rs.ident}/{lf.ident}", loc_of(lf),
                f"nested keys are joined with {sep_w!r} and split on {sep_r!r}", f"writer joins nested keys with {sep_w!r}, reader splits on {sep_r!r}")
+
+    ctx.decide(bounded_split is None, "C13.flatten", lf.ident, loc_of(lf, bounded_split), "the reader splits a flattened key on every separator (the writer nests to any depth)",
+               "the reader splits a flattened key only a bounded number of times: a dictionary nested deeper than that (e.g. a dict-valued flow option inside flow_kwargs) "
+               "reloads flat with dotted keys", disc="depth")
 
     # (2) samples codec, (3) dtype codec
     for wname, rname, arg in (("encode_samples", "decode_samples", "encoded_samples"), ("encode_dtype", "decode_dtype", "encoded_dtype")):
@@ -586,6 +601,9 @@ MUTANTS = [
     M("periodic config key not a parameter", _T, "\"lower\": self.lower.tolist(),\n            \"upper\": self.upper.tolist(),\n        }\n\n\nclass BoundedTransform", "\"lower\": self.lower.tolist(),\n            \"high\": self.upper.tolist(),\n        }\n\n\nclass BoundedTransform", "C13.transform"),
     M("affine state dataset renamed", _T, "h5_file.create_dataset(\"std\", data=self._std)", "h5_file.create_dataset(\"scale\", data=self._std)", "C13.transform"),
     M("flow transform keeps periodic key", _T, "cfg.pop(\n            \"periodic_parameters\", None\n        )  # Remove periodic_parameters from config", "pass", "C13.transform"),
+    M("reader rebuilds only one nesting level", _U, "parts = key.split(\".\")", "parts = key.split(\".\", 1)", "C13.flatten"),
+    M("jax flow saves only the floating-point leaves", "src/aspire/flows/jax/flows.py", "arrays, _ = eqx.partition(self._flow, eqx.is_array)", "arrays, _ = eqx.partition(self._flow, eqx.is_inexact_array)", "C13.flow",
+      more=[("arrays_template, static = eqx.partition(flow_template, eqx.is_array)", "arrays_template, static = eqx.partition(flow_template, eqx.is_inexact_array)")]),
     M("torch load never installs the weights", _TF, "obj._flow.load_state_dict(weights)\n", "", "C13.flow"),
     M("torch save skips the data transform", _TF, "if data_transform is not None:\n            data_transform.save(flow_grp, \"data_transform\")", "if data_transform is None:\n            data_transform.save(flow_grp, \"data_transform\")", "C13.flow"),
     M("torch load ignores a stored data transform", _TF, "if \"data_transform\" in flow_grp:", "if \"data_transform\" not in flow_grp:", "C13.flow"),
